@@ -715,8 +715,15 @@ class DBusObjectHandler :
         """
         d = {}
 
+        # compare against objectPath + '/' so that only paths beneath
+        # objectPath match, not siblings sharing a textual prefix
+        # ('/a/bc' is not beneath '/a/b')
+        prefix = objectPath
+        if not prefix.endswith('/'):
+            prefix += '/'
+
         for p in sorted(self.exports.keys()):
-            if not p.startswith(objectPath) or p == objectPath:
+            if not p.startswith(prefix) or p == objectPath:
                 continue
             o = self.exports[p]
             i = {}
